@@ -169,8 +169,10 @@ def run(tier, seed, replay_case=None):
         items += eval_cases(None, 0, {'fixed': corpus})
     if replay_case is None:
         items += core.run_sharded(eval_cases, seed, total, {'tier': tier})
-        if tier == 'thorough':
-            items += core.run_sharded(eval_cases, seed + 1, 48, {'tier': tier, 'big': True})
+        # lines around the 1 MiB limit (MaxSearchableLineLengthReached paths): 48 in thorough,
+        # 3 in quick
+        items += core.run_sharded(eval_cases, seed + 1, 48 if tier == 'thorough' else 3,
+                                  {'tier': tier, 'big': True})
     drv = core.Driver()
     mobs = drv.run([it['model_case'] for it in items])
     for it, mo in zip(items, mobs):
